@@ -45,6 +45,7 @@ func runC08(p *Prog, r *Report) {
 	c08LocationsBeforePackages(p, r, "D1-sorted")
 	c08Comparators(p, r)
 	c08NoPointerIdentity(p, r)
+	elementwiseComparesLength(p, r, "D2-keys", "CmpPackages", "cmpStatus", "cmpFindings")
 	e := resolveEngine(p, r, "D3-per-root")
 	if !e.ok() {
 		return
